@@ -234,6 +234,9 @@ func c09(r *core.Run) {
 	// "every function of the old file and of the new file": the collection that feeds the report enumerates every
 	// function with a body, nested literals of synthetic initialisers included (shared with C16)
 	c16EnumRule(r, "C09.ENUM")
+	// "a one-to-one, kind- and type-respecting matching": the comparator's attribute equalities are a conjunction
+	// (shared with C04)
+	r.Under("C04.CONJ", "C09.CONJ", func() { c04Conj(r) })
 }
 
 func c19(r *core.Run) {
